@@ -41,6 +41,7 @@ MODES3 = ["SYNC", "THREADING", "MULTIPROCESSING"]
 CQ_MODE = {"SYNC": "MSync", "THREADING": "MThreading", "MULTIPROCESSING": "MMultiprocessing"}
 
 PRIOS = [50, None, 150]          # None = attribute unset -> Extender.priority default 100
+PRIOS_BOUNDARY = [0, -7, 1, 99, 100, 101, None, 50, 150]
 BEHS = ["pass", "rb", "ra"]
 HOOKS = ["calc", "vin", "vout"]
 KINDS = ["vin", "calc", "vout"]  # order inside one step
@@ -428,7 +429,7 @@ def run_wrapped_real(exts: List[dict], kind: str, wok: bool, hash_seed: int, bef
             o.beh, o.hook_names = x["beh"], list(x["hooks"])
             if x["prio"] is not None:
                 o.priority = x["prio"]
-            elif hasattr(o, "_priority"):
+            elif "_priority" in vars(o):
                 del o._priority
             o.count = 0
     cfw = PyArrowTable(ParallelizationMode.SYNC, frozenset(), uuid4(), function_extender=objs)
@@ -495,6 +496,13 @@ def wrapped_cases(rng: random.Random, big: bool) -> List[dict]:
                 hs = [h for h in HOOKS if (h == kind and m) or (h != kind and rng.random() < 0.5)]
                 exts.append({"i": i, "prio": p, "beh": b, "hooks": hs})
             specs.append((exts, kind, rng.random() < 0.8))
+    # boundary priorities: 0 and negative values (falsy / below every default), the explicit default 100 and its neighbours
+    for _ in range(1500 if big else 200):
+        n = rng.choice([2, 2, 3])
+        kind = rng.choice(KINDS)
+        exts = [{"i": i, "prio": rng.choice(PRIOS_BOUNDARY), "beh": rng.choice(BEHS) if rng.random() < 0.3 else "pass",
+                 "hooks": [h for h in HOOKS if h == kind or rng.random() < 0.4]} for i in range(n)]
+        specs.append((exts, kind, rng.random() < 0.85))
     out = []
     for k, (exts, kind, wok) in enumerate(specs):
         out.append(run_wrapped_real(exts, kind, wok, rng.getrandbits(30)))
